@@ -321,7 +321,7 @@ def run_case(case, ctx):
 # MANIFEST-BEGIN
 MANIFEST = {
     'technique': 'reference monitor: trajectories vs the explicitly written linear-chain ODE + hook on _add_edge_buffer reading the emitted chain orders and rates',
-    'level_text': 'Generated circuits with random (delay, spread) edges are simulated (Euler, scipy) and every user state variable is compared with the reference that integrates the explicit chain of n=round((d/s)^2) first-order stages of rate n/d per edge (1e-7 Euler, 2e-6 adaptive); a hook on the emitting function asserts per edge that order and rate are as defined and that the mean delay order/rate equals d; vectorized and non-vectorized forms both run. A mixed family combines discrete-delay edges and gamma-kernel edges in one model. Further families: Connectivity connections with (delay, spread), one common kernel for all edges, two or three kernels shared by the edges (several edges per chain, several chains per source). Kernel families contain near twins (same order, rates that differ by a fraction of 1); probe family: kernels whose mean delay does not exceed the step size (recorded finding). Held on observed circuits only.',
+    'level_text': 'Generated circuits with random (delay, spread) edges are simulated (Euler, scipy) and every user state variable is compared with the reference that integrates the explicit chain of n=round((d/s)^2) first-order stages of rate n/d per edge (1e-7 Euler, 2e-6 adaptive); a hook on the emitting function asserts per edge that order and rate are as defined and that the mean delay order/rate equals d; vectorized and non-vectorized forms both run. A mixed family combines discrete-delay edges and gamma-kernel edges in one model. Further families: Connectivity connections with (delay, spread), one common kernel for all edges, two or three kernels shared by the edges (several edges per chain, several chains per source). Kernel families contain near twins (same order, rates that differ by a fraction of 1); probe family: kernels whose mean delay does not exceed the step size (recorded finding). A dde_approx family gives delays without spread and the order through run(dde_approx=n), fixed-step and adaptive. Held on observed circuits only.',
     'level_note': 'Trusted: vp/ref.py chain model. Connectivity(delays, spread) form is covered under C16. Structural risk features shared with C09 are excluded from the main sweep (open findings).',
 }
 # MANIFEST-END
